@@ -31,6 +31,10 @@ ASYMS = {
                [[0.0123 + 0.0771 * i, 0.9131 - 0.0613 * i, (0.137 * i * i + 0.0411) % 1.0] for i in range(12)], None),
     "half_occ": (["C", "O", "H"], ["C1", "O1", "H1A"], [[0.1231, 0.3117, 0.2713], [0.5533, 0.0791, 0.6127], [0.8419, 0.7277, 0.0911]],
                  [1.0, 0.5, 0.5]),
+    # the whole range of occupancies a refinement produces, including an exactly empty site (a placeholder the refinement drove to zero),
+    # whole numbers (which a CIF holds as "1" and "0" - integers to the reader) and a non-terminating fraction
+    "occ_values": (["C", "O", "H", "N", "S"], ["C1", "O1", "H1A", "N1", "S1"], [[0.1231, 0.3117, 0.2713], [0.5533, 0.0791, 0.6127], [0.8419, 0.7277, 0.0911],
+                                                                               [0.3301, 0.9013, 0.4409], [0.6607, 0.2203, 0.8101]], [1.0, 0.0, 0.25, 0.75, 1.0 / 3.0]),
     # sites given many cells away from the origin (coordinates between 5 and 15 in magnitude, where SHELX's own "10 + value = fixed
     # parameter" convention lives - the library writes plain coordinates and must read them back as such)
     "far": (["C", "O", "N"], ["C1", "O1", "N1"], [[6.1651, -7.2513, 0.3127], [12.5533, 0.0791, -9.3873], [-5.6419, 9.7277, 14.0911]], None),
@@ -61,7 +65,7 @@ def variants(row, tier):
     out = [d]
     axes = [
         [("oblique",), ("nonterm",), ("eq_ab",), ("eq_bc",), ("eq_ac",)],
-        [("two_letter",), ("twelve",), ("half_occ",), ("precise",), ("far",), ("misleading_labels",)],
+        [("two_letter",), ("twelve",), ("half_occ",), ("occ_values",), ("precise",), ("far",), ("misleading_labels",)],
         [("from_cif",), ("from_res",), ("from_rich_cif",)],
         [("file",)],
         [(2,)],
@@ -632,7 +636,7 @@ def run(ctx):
     table = symm.load_table()
     nvar = len(variants(table[0], ctx.tier))
     ctx.rule = ("530 settings x {CIF, .res, POSCAR} x %d variants within %d deviation(s) of the default (cell: oblique / non-terminating / accidentally equal lengths a=b, b=c, a=c; asymmetric unit: "
-                "two-letter elements+suffix labels / 12 atoms / half occupancies / 12-digit coordinates; provenance: from CIF / from a refinement-style CIF with extra same-prefix loops of other lengths / from .res; route: "
+                "two-letter elements+suffix labels / 12 atoms / half occupancies / occupancies 1, 0, 1/4, 3/4, 1/3 / 12-digit coordinates; provenance: from CIF / from a refinement-style CIF with extra same-prefix loops of other lengths / from .res; route: "
                 "files incl. POSCAR, CONTCAR; two generations); states = settings, transitions = save->load steps, traces = texts read by the "
                 "independent reference readers" % (nvar, 2 if ctx.thorough else 1))
     ctx.bounds = {"settings": len(table), "variants_per_setting": nvar, "formats": list(FORMATS)}
